@@ -38,6 +38,10 @@ def lit_string(s):
 
 
 class Gen:
+    def derive_attr(self):
+        """both traits, in every spelling the attribute syntax allows: one list in either order, or stacked attributes"""
+        return self.rng.choice(["#[derive(ToString, ToJson)]\n", "#[derive(ToJson, ToString)]\n", "#[derive(ToString)]\n#[derive(ToJson)]\n", "#[derive(ToJson)]\n#[derive(ToString)]\n"])
+
     def __init__(self, rng):
         self.rng = rng
         self.types = {}  # name -> ("struct", [(f, ty)]) | ("enum", [(v, [ty])])
@@ -198,9 +202,9 @@ class Gen:
         for name in self.order:
             kind, body = self.types[name]
             if kind == "struct":
-                defs.append("#[derive(ToString, ToJson)]\nstruct %s {\n%s}\n" % (name, "".join("    %s: %s,\n" % (f, t) for f, t in body)))
+                defs.append(self.derive_attr() + "struct %s {\n%s}\n" % (name, "".join("    %s: %s,\n" % (f, t) for f, t in body)))
             else:
-                defs.append("#[derive(ToString, ToJson)]\nenum %s {\n%s}\n" % (name, "".join("    %s%s,\n" % (v, "(%s)" % ", ".join(tys) if tys else "") for v, tys in body)))
+                defs.append(self.derive_attr() + "enum %s {\n%s}\n" % (name, "".join("    %s%s,\n" % (v, "(%s)" % ", ".join(tys) if tys else "") for v, tys in body)))
         stmts, expect = [], []
         for i in range(n_values):
             ty = self.rng.choice(self.order)
